@@ -125,7 +125,7 @@ CHECKS = {
                  "overlapping+duplicate, other family) with peers v4/v6, with and without a prefetching proxy_protocol matcher; plus every split point of 8 header kinds. "
                  "Observed: bytes, addresses and placeholders seen by a recorder behind the handler and remote_ip/local_ip matchers in a following subroute. "
                  "send: proxy handler v1/v2 to 1-3 loopback peers, client v4/v6, with a received header first (composition), parsed by an independent parser; and a server-speaks-first "
-                 "exchange in which the upstream must hold a complete header while the client is still silent. "
+                 "exchange in which the upstream must hold a complete header while the client is still silent, answers the end of the client's stream with a last line, and one client in 400 waits 3.3 s before sending. "
                  "Non-trivial = header split across reads or coalesced with payload, TLVs, allow-list miss, composition or prefetched bytes; distinct = distinct case."),
         "assumptions": ["v2 headers with TLVs are rejected by the PROXY protocol library in use: then the connection must fail closed (no handler runs); acceptance is not demanded",
                         "v1 UNKNOWN declares no addresses; what later matchers see is not judged (the library reports an empty TCP address)",
@@ -142,8 +142,8 @@ CHECKS = {
     },
     "C16": {
         "rule": ("generated handler configurations (command subsets in any case and via placeholders, default commands; credential maps with empty names, empty passwords, "
-                 "placeholders, unset placeholders) x generated client byte scripts (version, method lists, user/pass sub-negotiation right/wrong/unknown/empty or exactly a configured entry with its placeholders resolved - usable or not -, command 0-255 "
-                 "samples, IPv4/domain/IPv6/garbage address types, truncations) through the real handler over loopback TCP with a loopback target listener; in a third of the cases 0-2 other socks5 handlers with generated configurations of their own are provisioned before and after the handler under test. Oracle (safety): "
+                 "placeholders, unset placeholders) x generated client byte scripts (version, method lists, user/pass sub-negotiation right/wrong/unknown/empty, exactly a configured entry with its placeholders resolved - usable or not -, its trimmed or re-split form, a known user with another password, command 0-255 "
+                 "samples, IPv4/domain/IPv6/garbage address types, truncations) through the real handler over loopback TCP with a loopback target listener; in a third of the cases 0-2 other socks5 handlers with generated configurations of their own are provisioned before and after the handler under test, one of them from the same configuration text while its placeholders had other values (rotated secrets). Oracle (safety): "
                  "target accepts / REP=0 / new UDP socket only if the configuration permits the command for that client. Non-trivial = credentials configured and a "
                  "syntactically valid request; distinct = distinct (config, session)."),
         "assumptions": ["the reference reading of the configuration comes from the handler's documentation: default commands CONNECT+ASSOCIATE, credentials with an empty (resolved) user name are unusable",
@@ -267,7 +267,7 @@ CHECKS = {
                  "with a model in which every remembered failure carries the interval in which it was counted ('too early' is final, 'too late' is given 2-3 s and dropped after a process stall); counters at rest; (2) retry window: try_duration 0-1 s, try_interval "
                  "50-250 ms, upstream stays down or comes back inside the window: duration bounds, last error, attempts spaced; (3) active checks: interval 50-100 ms, listener "
                  "toggled 2-6 times (in half of the cases while a proxied connection to the peer stays open and the peer only stops accepting), health flag follows within 3 intervals + 150 ms (+ 3 s patience); (4) connection limits 1-3 via max_connections or unhealthy_connection_count: histories of "
-                 "opens and releases of held proxied connections, which upstream accepted each. Non-trivial = a failure that expires or reaches max_fails, a non-zero try_duration, "
+                 "opens and releases of held proxied connections (the limited upstream has one or two peers; an outage of its last peer makes a dial attempt fail half-way), which upstream accepted each. Non-trivial = a failure that expires or reaches max_fails, a non-zero try_duration, "
                  "any active/limit history; distinct = distinct (settings, history)."),
         "assumptions": ["peer counters are read through an overlay export shim", "upper time bounds use slack >= 1 s and are dropped when the stall monitor saw the process held up for > 40 ms"],
         "min_classes": {"quick": {"C11/passive-window": 15, "C11/retry-window": 15, "C11/active-checks": 15, "C11/connection-limit": 15, "C11/reload-or-active-recovery": 10, "C11/active-checks-with-open-connection": 4}},
@@ -278,17 +278,18 @@ CHECKS = {
     },
     "C07": {
         "tags": ["verif_tls"],
-        "rule": ("ClientHellos captured from real crypto/tls clients with generated configurations: server names (fixed list incl. long, punycode, upper case, IP literal, none; generated "
+        "rule": ("ClientHellos captured from real crypto/tls clients with generated configurations: server names (fixed list incl. long, punycode, upper case, underscores, a 64-byte label, IP literal, none; generated "
                  "FQDNs), 0-8 ALPN protocols (lengths up to 255), every min/max version pair 1.0-1.3, cipher-suite subsets, curve permutations, tickets on/off, resumption after a real "
                  "handshake with an in-process server (ticket / PSK extensions); one in three hellos is mutated at byte level with lengths kept consistent (GREASE/unknown extensions "
                  "inserted, extension order permuted, an extension dropped, a second non-host name in the SNI list plus padding) and kept only if crypto/tls's server still accepts it. "
                  "Oracle (differential): the same bytes go to a crypto/tls server whose GetConfigForClient captures ClientHelloInfo; parse result, MatchTLS verdict with generated sni/alpn "
                  "sub-matchers, placeholders, 'incomplete is undecided' and 'non-handshake never matches'; 2-12 such hellos are also matched at the same time, 5-40 rounds each, "
-                 "by ONE matcher instance (as the connections of one route are) and each must get its own server name and verdict. Non-trivial = SNI and >= 1 ALPN protocol, or resumption, or a restricted "
+                 "by ONE matcher instance (as the connections of one route are) and each must get its own server name and verdict; and a tls matcher evaluated on the plaintext "
+                 "of a terminated session (connection wrapped) must read the inner hello. Non-trivial = SNI and >= 1 ALPN protocol, or resumption, or a restricted "
                  "version range; distinct = distinct (hello bytes, matcher config)."),
         "assumptions": ["a ClientHello split across several TLS records is out of scope (the matcher reads one record by design; crypto/tls never emits that below 16 KiB)",
                         "run with the default toolchain go1.23; hellos of a newer crypto/tls (post-quantum key shares) can be explored by running the thorough tier under go1.26.8"],
-        "min_classes": {"quick": {"C07/resumption-hello": 30, "C07/mutated-grease": 15, "C07/mutated-permuted": 15, "C07/verdict/true": 80, "C07/verdict/false": 80, "C07/shared-matcher-concurrent": 100}},
+        "min_classes": {"quick": {"C07/resumption-hello": 30, "C07/mutated-grease": 15, "C07/mutated-permuted": 15, "C07/verdict/true": 80, "C07/verdict/false": 80, "C07/shared-matcher-concurrent": 100, "C07/inner-hello-after-termination": 100}},
         "runs": [
             {"name": "differential", "pkg": "./c07", "run": ".", "rapid_checks": {"quick": 120, "thorough": 20000},
              "shards": {"quick": 6, "thorough": 16}, "timeout": {"quick": 600, "thorough": 7200}},
@@ -320,7 +321,7 @@ CHECKS = {
                  "l4.conn.wrap_time), dns (TCP/UDP framing, header flags, trailing bytes, allow/deny/regexp rules, default_deny, prefer_allow), rdp (cookie/token incl. port fields beyond 16 bits/custom x RDP_NEG_REQ x "
                  "correlation info x the five filters), wireguard (initiation/keepalive sizes, type, reserved bytes vs zero), openvpn (plain/auth/crypt hard resets signed with "
                  "generated keys, digests, replay ids, timestamps, modes; TCP and UDP), winbox (modes, user-name alphabet, key length, parity, filters), http (request line, "
-                 "host/path/method/header sub-matchers, HTTP/2 prior knowledge). Non-trivial = a filtered or corrupted case with a specified verdict; distinct = distinct (config, message)."),
+                 "host/path/method/header sub-matchers, percent-escaped targets and queries, HTTP/2 prior knowledge). Non-trivial = a filtered or corrupted case with a specified verdict; distinct = distinct (config, message)."),
         "assumptions": ["where the definitions leave a case open (SOCKS5 greeting without methods, IPv4-mapped addresses, packets that can be read as another OpenVPN mode, free-form RDP routing info followed by odd bytes) the case is generated but not judged",
                         "regular expressions in generated configurations avoid brace quantifiers: Caddy replaces {...} placeholders before a pattern is compiled",
                         "OpenVPN messages are signed/encrypted with the module's own primitives (there is no second implementation offline); field-level rules are independent"],
